@@ -58,6 +58,8 @@ MUTANTS = [
     ("C19", "config/config_service.py", "        for path in in_app_exclude:\n            if filename.startswith(path):\n                return False, path\n\n        for path in in_app_include:\n            if filename.startswith(path):\n                return True, path",
      "        for path in in_app_include:\n            if filename.startswith(path):\n                return True, path\n\n        for path in in_app_exclude:\n            if filename.startswith(path):\n                return False, path"),
     ("C02", "processor/frame_collector.py", "return filename[len(match):], is_app_frame", "return filename[len(match) + 1:], is_app_frame"),
+    ("C18", "api/resource/__init__.py", '        if self.schema_url == "":\n            schema_url = other.schema_url', '        if self.schema_url == "":\n            schema_url = self.schema_url'),
+    ("C18", "api/resource/__init__.py", "        merged_attributes.update(other.attributes)\n", ""),
     ("C18", "api/attributes/__init__.py", "self._dict.popitem(last=False)\n                    self.dropped += 1", "self._dict.popitem(last=False)"),
     ("C18", "api/attributes/__init__.py", "self.max_length is not None and len(self._dict) == self.max_length", "self.max_length is not None and len(self._dict) + 1 == self.max_length"),
     ("C18", "api/attributes/__init__.py", "                if key in self._dict:\n                    del self._dict[key]\n                elif (", "                if ("),
